@@ -219,8 +219,10 @@ class IdempotencyStore(Entity):
 
         result: list[Event] = [forwarded]
 
-        # Schedule first cleanup if this is the first entry
-        if len(self._cache) == 0 and len(self._in_flight) <= 1:
+        # Schedule first cleanup if this is the first entry. A key-less request
+        # adds no entry: letting it start a cleanup chain would add one more
+        # self-rescheduling chain next to the running one for every such request.
+        if key is not None and len(self._cache) == 0 and len(self._in_flight) <= 1:
             result.append(self._schedule_cleanup())
 
         return result
